@@ -451,7 +451,9 @@ class Run:
 KERNEL_TB = [
     "Coq 8.16.1 kernel (coqc, full .vo builds; vm_compute used for finite sweeps and for evaluating the model on cases; "
     "native_compute not used); coqchk re-check in the thorough tier",
-    "no axioms declared; source scan rejects Admitted/admit/Axiom/Parameter/Conjecture/guard switches on every run",
+    "no axioms declared; source scan rejects Admitted/admit/Axiom/Parameter/Conjecture/guard switches on every run; Print Assumptions "
+    "of every property theorem: Closed under the global context; coqchk -o lists one axiom of the LOADED standard library context, "
+    "Coq.Logic.Eqdep.Eq_rect_eq.eq_rect_eq (declared by Coq.Logic.Eqdep, pulled in by an imported stdlib module; no theorem depends on it)",
     "translator harness/cmd/extract (go/parser): copies constants/tables from /repo into coq/Gen/*.v on every run",
     "correspondence harness: Go drivers in /verif/harness built against /repo's working tree, the generated cases_*.v "
     "files and their evaluation by coqc (vm_compute) - no extraction is used",
